@@ -109,6 +109,18 @@ static void check_case(vg::Src& s, vh::Ctx& c)
     if (pflood)
         ops.push_back(vg::op_pflood());
     ops.push_back(vg::op_multi(p1));
+    // "after the multiple-direction router runs": in one case out of four later operators follow
+    // it (a single-direction router) and the state right after the multiple-direction router is
+    // read from a graph snapshot placed behind it (seeded change C05-G: tables sized from the
+    // direction of the LAST router)
+    bool via_snapshot = s.chance(64);
+    size_t multi_pos = ops.size() - 1;
+    if (via_snapshot)
+    {
+        ops.push_back(vg::op_snap("m", true, false));
+        ops.push_back(vg::op_single(0));
+        c.label("state-read-from-snapshot-behind-the-router");
+    }
     FlowCase fc2 = fc;
     if (second && s.coin())
     {
@@ -121,15 +133,25 @@ static void check_case(vg::Src& s, vh::Ctx& c)
     c.label("p=" + vg::fmt(p1));
     Built b = build(fc, ops, c);
     auto res = b.graph->update_routes(fc.z);
-    GraphState st = b.graph->state();
+    auto state_of = [&]() { return via_snapshot ? b.graph->graph_snapshot("m").state() : b.graph->state(); };
+    GraphState st = state_of();
     check_wellformed(c, st, fc.m.n);
     bool nt = check_state(c, fc, res.out, st, p1, "update#1");
     if (second)
     {
         OpSpec np = vg::op_multi(p2);
-        b.graph->set_op_param(pflood ? 1 : 0, np);
+        b.graph->set_op_param(multi_pos, np);
+        if (s.chance(100))
+        {
+            // new mask / base levels (and sometimes a refused call) before the second update
+            std::string what = mutate_settings(s, fc2, *b.graph, false);
+            c.desc += " |" + what;
+            if (c.verbose)
+                std::cout << "STEP" << what << std::endl;
+            c.label("settings-changed-between-updates");
+        }
         auto res2 = b.graph->update_routes(fc2.z);
-        GraphState st2 = b.graph->state();
+        GraphState st2 = state_of();
         check_wellformed(c, st2, fc.m.n);
         nt = check_state(c, fc2, res2.out, st2, p2, "update#2(p changed)") || nt;
         c.label("second-update");
